@@ -394,6 +394,26 @@ func genC10(c *ctx) {
 			}
 		}
 	}
+	// storage objects: nested prefixes with different masks; the object requested is a prefix itself, lies below one, or is shorter
+	{
+		now := m.T{Sec: 1700000000}
+		pfx := []string{"", "b", "b/", "b/f", "b/f/x", "c"}
+		for i := 0; i < len(pfx); i++ {
+			for j := 0; j < len(pfx); j++ {
+				if i == j {
+					continue
+				}
+				for _, ms := range [][2]uint16{{1, 3}, {3, 1}, {31, 1}, {1, 31}, {0, 31}} {
+					es := []m.EntS{{K: pfx[i], M: ms[0]}, {K: pfx[j], M: ms[1]}}
+					for _, obj := range []string{"b", "b/", "b/f", "b/f/x", "b/f/x/y", "c", "a"} {
+						for _, act := range []uint16{1, 2, 3} {
+							s.prohibits(m.Cav{Kind: "CStorageObjects", RSS: es}, m.Acc{Kind: "AFlyio", Org: pN(1), Storage: pS(obj), Action: act, Now: now}, "storage/nested-prefixes", true)
+						}
+					}
+				}
+			}
+		}
+	}
 	// role table: every member feature x every action bit pattern below 64
 	for ft := range flyio.MemberFeatures {
 		for act := 0; act < 64; act += 1 {
